@@ -126,6 +126,62 @@ def rule_MP2(rep, prog):
         rep.unknown(rid, "expected both timeout and success return paths (found %d / %d)" % (nz, z))
 
 
+def rule_MP3(rep, prog):
+    rid = rep.rule("C08-MP3", "kernel semaphore wrappers: _dispatch_sema4_wait returns only after sem_wait succeeded (EINTR is retried); "
+                   "_dispatch_sema4_timedwait reports a timeout only for ret == -1 with errno ETIMEDOUT and success only for ret != -1", floor=3)
+    M1 = 0xffffffff
+    def ret_tests(fn, call):
+        return [i for i in fn.all_insts() if i.op == "icmp" and i.d["pred"] in ("eq", "ne") and
+                any(fn.inst(o) is call for o in i.ops) and any(o[0] == "c" and o[1] in (M1, (1 << 64) - 1) for o in i.ops)]
+    def failed(cx, tests):
+        """True if ret == -1 known, False if ret != -1 known, None otherwise"""
+        for t in tests:
+            tv = cx.truth.get(t.id)
+            if tv is not None:
+                return tv == (t.d["pred"] == "eq")
+        return None
+    fn = prog.fn("_dispatch_sema4_wait")
+    rep.saw(fn)
+    sw = calls_named(fn, "sem_wait")
+    if not sw:
+        rep.unknown(rid, "sem_wait not called in _dispatch_sema4_wait (not the POSIX configuration?)")
+    for c in sw:
+        tests = ret_tests(fn, c)
+        res = paths.walk(fn, c, lambda i: i is c)
+        bad = [r for r in res if r[0] == "exit" and failed(r[2], tests) is not False]
+        rep.require(rid, not bad and bool(tests), c.loc, fn.name, "sema4-wait-returns-on-failure",
+                    "_dispatch_sema4_wait can return although sem_wait did not succeed (e.g. interrupted by a signal): a blocked dispatch_semaphore_wait "
+                    "would report success without a signal", sample={"fn": fn.name, "paths": len(res)})
+    fn = prog.fn("_dispatch_sema4_timedwait")
+    rep.saw(fn)
+    sw = calls_named(fn, "sem_timedwait")
+    if not sw:
+        rep.unknown(rid, "sem_timedwait not called in _dispatch_sema4_timedwait")
+    for c in sw:
+        tests = ret_tests(fn, c)
+        res = paths.walk(fn, c, lambda i: i is c)
+        for kind, inst, cx, path in res:
+            if kind != "exit":
+                continue
+            v = cx.value(inst.ops[0])
+            if v is None:
+                b = cx.cond(inst.ops[0])
+                v = None if b is None else ("c", 1 if b else 0)
+            f = failed(cx, tests)
+            if v == ("c", 1):
+                rep.require(rid, f is True, inst.loc, fn.name, "timedwait-timeout-without-failure",
+                            "_dispatch_sema4_timedwait reports a timeout on a path where sem_timedwait was not established to have failed (ret == -1): a "
+                            "stale errno turns a consumed wake-up into a timeout and the signal is lost (path %s)" % path, sample={"returns": "timeout"})
+            elif v == ("c", 0) or v == paths.NULL:
+                rep.require(rid, f is False, inst.loc, fn.name, "timedwait-success-on-failure",
+                            "_dispatch_sema4_timedwait reports success on a path where sem_timedwait may have failed (path %s)" % path, sample={"returns": "acquired"})
+            else:
+                rep.violation(rid, inst.loc, fn.name, "timedwait-result-not-determined-by-ret",
+                              "_dispatch_sema4_timedwait: on path %s (sem_timedwait %s) the reported result is not fixed by the call's outcome (e.g. it "
+                              "depends on a possibly stale errno): a successful wait can be reported as a timeout or vice versa"
+                              % (path, {True: "failed", False: "succeeded", None: "outcome untested"}[f]))
+
+
 def run(rep, tier="quick", srcdir=None, only=None):
     prog, units = load(UNITS, tier, srcdir)
     rep.units = units
@@ -135,6 +191,8 @@ def run(rep, tier="quick", srcdir=None, only=None):
         rule_TR1(rep, prog, ex)
     if want("C08-MP2"):
         rule_MP2(rep, prog)
+    if want("C08-MP3"):
+        rule_MP3(rep, prog)
 
 
 MANIFEST = {
